@@ -110,7 +110,7 @@ Proof. exact tick_sub_extended. Qed.
 Print Assumptions C36_subscription_extended.
 
 (* Non-vacuity: a run with ping, pong, refresh and an expiry close. *)
-Definition ex_cfg := mkCfg 20 10 23 20 10 10 false RNone SFail.
+Definition ex_cfg := mkCfg 20 10 23 20 10 10 false RNone SFail 0.
 Example C36_ex_run :
   match exec ex_cfg (init ex_cfg)
           [LAdvance 5; LConnect 20 true 13 10; LAdvance 10; LFire; LPong; LRefreshCmd 60;
